@@ -2,7 +2,8 @@
    Property theorems only; each is closed by a lemma from C04/Proofs*.v. *)
 From Coq Require Import ZArith List Bool Lia.
 Import ListNotations.
-From Osmo Require Import Base.DecModel C04.Common C04.Lp C04.Balancer C04.Stableswap C04.ProofsLp C04.ProofsPools.
+From Coq Require Import QArith.
+From Osmo Require Import Base.DecModel C04.Common C04.Lp C04.MathLib C04.Balancer C04.Stableswap C04.ProofsLp C04.ProofsPools C04.ProofsBalancer C04.ProofsStable Gen.C04_consts.
 Open Scope Z_scope.
 
 (* ------------------------------------------------------------------------------------------
@@ -78,6 +79,168 @@ Theorem C04_stableswap_exit : forall p sh fee coins p',
   per_share_down (s_res p) (s_shares p) (s_res p') (s_shares p').
 Proof. exact s_exit_sound. Qed.
 Print Assumptions C04_stableswap_exit.
+
+(* ------------------------------------------------------------------------------------------
+   Balancer (weighted) pools: swap / single-asset join / single-asset exit results are the rounded images
+   (Truncate what the pool pays, Ceil what it charges) of the constant-weighted-product formula evaluated
+   with osmomath.Pow on operands rounded to 18 decimals.  [cfi_image b1 b2 wf bu wu r] says
+   r = bu * (1 - Pow(b1/b2, wf/wu)) with every operation as the code rounds it.
+   ------------------------------------------------------------------------------------------ *)
+Theorem C04_balancer_swap_out_is_truncated_formula : forall p i j a fee out,
+  b_calc_out_given_in p i j a fee = Ok out ->
+  exists r, cfi_image (dec_of_int (nthZ (b_res p) i))
+                      (d_mul (dec_of_int a) (P18 - fee) + dec_of_int (nthZ (b_res p) i))
+                      (dec_of_int (nthZ (b_w p) i)) (dec_of_int (nthZ (b_res p) j)) (dec_of_int (nthZ (b_w p) j)) r /\
+            out = Z.quot r P18 /\ 0 < out.
+Proof. exact b_calc_out_rounded_image. Qed.
+Print Assumptions C04_balancer_swap_out_is_truncated_formula.
+
+Theorem C04_balancer_swap_in_is_ceiled_formula : forall p i j o fee tin,
+  b_calc_in_given_out p i j o fee = Ok tin ->
+  exists r, cfi_image (dec_of_int (nthZ (b_res p) i)) (dec_of_int (nthZ (b_res p) i) - dec_of_int o)
+                      (dec_of_int (nthZ (b_w p) i)) (dec_of_int (nthZ (b_res p) j)) (dec_of_int (nthZ (b_w p) j)) r /\
+            P18 - fee <> 0 /\ tin = Z.quot (d_ceil (d_quo (- r) (P18 - fee))) P18 /\ 0 < tin.
+Proof. exact b_calc_in_rounded_image. Qed.
+Print Assumptions C04_balancer_swap_in_is_ceiled_formula.
+
+Theorem C04_balancer_single_join_is_truncated_formula : forall p bal w a fee ts s,
+  b_calc_single_asset_join p bal w a fee ts = Ok s ->
+  exists nw fr r, b_total_weight p <> 0 /\ nw = d_quo (dec_of_int w) (dec_of_int (b_total_weight p)) /\
+    fee_ratio nw fee = Ok fr /\
+    cfi_image (dec_of_int bal + d_mul (dec_of_int a) fr) (dec_of_int bal) nw (dec_of_int ts) P18 r /\
+    s = Z.quot (- r) P18.
+Proof. exact b_single_asset_join_rounded_image. Qed.
+Print Assumptions C04_balancer_single_join_is_truncated_formula.
+
+(* the single-asset exit TRUNCATES the shares it burns (the user's favour, by less than one share unit) *)
+Theorem C04_balancer_single_exit_is_truncated_formula : forall p i amt fee ef s p',
+  b_exit_swap_out p i amt fee ef = Ok (s, p') ->
+  exists nw fr r, nw = d_quo (dec_of_int (nthZ (b_w p) i)) (dec_of_int (b_total_weight p)) /\ fee_ratio nw fee = Ok fr /\ fr <> 0 /\
+    cfi_image (dec_of_int (nthZ (b_res p) i) - d_quo (dec_of_int amt) fr) (dec_of_int (nthZ (b_res p) i)) nw (dec_of_int (b_shares p)) P18 r /\
+    P18 - ef <> 0 /\ s = Z.quot (d_quo r (P18 - ef)) P18 /\ 0 < s /\ b_shares p' = b_shares p - s /\ 0 <= b_shares p'.
+Proof. exact b_exit_swap_out_rounded_image. Qed.
+Print Assumptions C04_balancer_single_exit_is_truncated_formula.
+
+(* The full statement for balancer pools - "within the documented power precision for every trade size up to the solver's
+   domain limit" - is FALSE of the faithful model, because this tree has no MaxInRatio / MaxOutRatio guard and Pow is used
+   with bases down to 0 (C13's finding F4).  Two machine-checked witnesses, both replayed on the Go code: *)
+Definition C04_balancer_quote_below_reserve_full : Prop := forall p i j a fee out,
+  b_calc_out_given_in p i j a fee = Ok out -> out < nthZ (b_res p) j.     (* the curve never empties a reserve *)
+Theorem C04_balancer_quote_below_reserve_refuted : ~ C04_balancer_quote_below_reserve_full.
+Proof.
+  intros H. destruct witness_quote_whole_reserve as [Hq _].
+  specialize (H _ _ _ _ _ _ Hq). vm_compute in H. discriminate.
+Qed.
+Print Assumptions C04_balancer_quote_below_reserve_refuted.
+(* ... but since the repo's fix e9b34e9409 no EXECUTED swap takes a whole reserve *)
+Theorem C04_balancer_executed_swap_keeps_reserve_positive : forall p i j a fee out p',
+  b_swap_out_given_in p i j a fee = Ok (out, p') -> 0 < nthZ (b_res p) j - out.
+Proof.
+  intros p i j a fee out p' H. unfold b_swap_out_given_in in H.
+  apply bind_ok in H as (o & Ho & H). apply bind_ok in H as (q & Hq & H). inversion H; subst o q; clear H.
+  unfold b_apply_swap in Hq. apply bind_ok in Hq as (ni & Hni & Hq). apply bind_ok in Hq as (nj & Hnj & Hq).
+  apply int_check_ok in Hnj. subst nj. destruct (_ <=? 0) eqn:E; [discriminate|]. apply Z.leb_gt in E. exact E.
+Qed.
+Print Assumptions C04_balancer_executed_swap_keeps_reserve_positive.
+
+(* single-asset exit, Pow base 1/16 < 1/2, normalised weight exactly 1/4: the exact formula burns shares/2; the code burns
+   1.27e-7 of the share total less - beyond the documented precision 1e-8 *)
+Definition C04_balancer_exit_within_precision_full : Prop :=
+  forall w r S amt s p', let p := mkB [r; r; r; r + amt * 15] [w; w; w; w] S in
+  0 < w -> 0 < r -> 0 < S -> (r + amt * 15 - amt * 16) * 16 = r + amt * 15 ->   (* base (B - out)/B = 1/16 *)
+  b_exit_swap_out p 3 (amt * 16) 0 0 = Ok (s, p') -> S / 2 - s <= S / 10 ^ 8 + 1.
+Theorem C04_balancer_exit_within_precision_refuted :
+  exists s p', b_exit_swap_out (mkB [1600000000000; 1000000000000; 1000000000000; 1000000000000] [G; G; G; G] 100000000000000000000)
+                               0 1500000000000 0 0 = Ok (s, p') /\
+    100000000000000000000 / 2 - s > 100000000000000000000 / 10 ^ 8.
+Proof. destruct witness_exit_precision as (s & p' & H & _ & _ & _ & Hgt). exists s, p'. split; assumption. Qed.
+Print Assumptions C04_balancer_exit_within_precision_refuted.
+
+(* ------------------------------------------------------------------------------------------
+   Stableswap pools
+   ------------------------------------------------------------------------------------------ *)
+(* the binary search returns only a probe that passed the tolerance comparison *)
+Theorem C04_stable_search_postcondition : forall f lo hi target t n x,
+  binary_search_bigdec f lo hi target t n = Ok x ->
+  exists lo' hi' out, x = Z.shiftr (lo' + hi') 1 /\ f x = Ok out /\ compare_bigdec t target out = Ok 0.
+Proof. exact binary_search_bigdec_post. Qed.
+Print Assumptions C04_stable_search_postcondition.
+
+(* in exact arithmetic the comparison the solver makes IS "k does not fall":
+   yf * (iterK(xf) - targetK) = k(xf, yf) - k(x0, y0) for k = x y (x^2 + y^2 + w) *)
+Theorem C04_stable_swap_k_exact : forall x0 y0 w yf xf : Z,
+  0 < yf -> kf x0 y0 w <= yf * (iter_k_exact x0 w yf xf + x0 * (yf * yf + w + x0 * x0)) ->
+  kf x0 y0 w <= kf xf yf w.
+Proof. exact swap_k_nondecreasing_exact. Qed.
+Print Assumptions C04_stable_swap_k_exact.
+
+(* swap_k_nondecreasing_partial: with the 36-decimal roundings of the ~12 BigDec operations, whatever the solver returns
+   satisfies k(after) >= k(before) - delta_k with the explicit rounding term delta_k (raw 10^36 scale: in value terms about
+   (3.5 X0 Yf + X0 Y0 + 2 Yf + Y0/2 + 1/2) * 10^-36 against k ~ X Y (X^2 + Y^2 + W)) *)
+Theorem C04_stable_swap_k_partial : forall x y w yin xout,
+  solve_cfmm_multi x y w yin = Ok xout ->
+  (0 < y + yin)%Z /\ (0 < x - xout < 2 * x)%Z /\
+  (Khat x y w - delta_k x y (y + yin) <= Khat (x - xout) (y + yin) w)%Q.
+Proof. exact swap_k_nondecreasing_partial. Qed.
+Print Assumptions C04_stable_swap_k_partial.
+
+(* no decrease at integer-token granularity: once the output that the truncations keep in the pool (s raw units of the
+   out-reserve) is worth more than delta_k, k does not fall at all *)
+Theorem C04_stable_swap_k_token_level : forall x y w yin xout s,
+  solve_cfmm_multi x y w yin = Ok xout -> (0 <= w)%Z -> (0 <= s)%Z ->
+  (delta_k x y (y + yin) <=
+    inject_Z s * (inject_Z (y + yin) * ((inject_Z (x - xout) * inject_Z (x - xout) + inject_Z (y + yin) * inject_Z (y + yin)) * iu + inject_Z w) * iu * iu))%Q ->
+  (Khat x y w <= Khat (x - xout + s) (y + yin) w)%Q.
+Proof. exact swap_k_nondecreasing_token_level. Qed.
+Print Assumptions C04_stable_swap_k_token_level.
+
+(* inputs are scaled down, outputs are scaled in the pool's favour (exact-in swaps) *)
+Theorem C04_stable_swap_out_rounding_direction : forall p i j a fee out,
+  length (s_sf p) = length (s_res p) -> 0 <= a -> Forall (fun r => 0 <= r) (s_res p) -> Forall (fun f => 0 < f) (s_sf p) ->
+  s_calc_out_given_in p i j a fee = Ok out ->
+  exists x y rem w tin xout,
+    scaled_sorted_reserves p i j = Ok (y :: x :: rem) /\ sum_squares rem 0 = Ok w /\
+    y * nth i (s_sf p) 1 <= nthZ (s_res p) i * P36 /\ x * nth j (s_sf p) 1 <= nthZ (s_res p) j * P36 /\
+    tin * nth i (s_sf p) 1 <= a * P36 /\
+    solve_cfmm_multi x y w (bd_mul tin (one_minus fee)) = Ok xout /\
+    0 < out /\ out * P36 <= xout * nthZ (s_sf p) j.
+Proof. exact s_calc_out_direction. Qed.
+Print Assumptions C04_stable_swap_out_rounding_direction.
+
+(* exact-out swaps: everything is rounded against the trader except BigDec.Dec(), which truncates to 18 decimals before the
+   Ceil and can forgive less than 10^-18 of a token *)
+Theorem C04_stable_swap_in_rounding_direction : forall p i j o fee tin,
+  length (s_sf p) = length (s_res p) -> 0 <= o -> Forall (fun r => 0 <= r) (s_res p) -> Forall (fun f => 0 < f) (s_sf p) ->
+  0 <= fee < P18 ->
+  s_calc_in_given_out p i j o fee = Ok tin ->
+  exists x y rem w tout xout in_amt,
+    scaled_sorted_reserves p j i = Ok (x :: y :: rem) /\ sum_squares rem 0 = Ok w /\
+    x * nth j (s_sf p) 1 <= nthZ (s_res p) j * P36 /\ y * nth i (s_sf p) 1 <= nthZ (s_res p) i * P36 /\
+    o * P36 <= tout * nth i (s_sf p) 1 /\
+    solve_cfmm_multi x y w (- tout) = Ok xout /\
+    (- xout) * P36 <= in_amt * one_minus fee /\
+    0 < tin /\ in_amt * nthZ (s_sf p) j < tin * P36 + P18.
+Proof. exact s_calc_in_direction. Qed.
+Print Assumptions C04_stable_swap_in_rounding_direction.
+
+(* "for every stableswap pool a swap never lowers the pool's invariant at all": the full statement, on the exact invariant
+   prod(R_i/sf_i) * sum((R_i/sf_i)^2) of the recorded reserves ... *)
+Definition C04_stable_full : Prop := forall p i j amt fee r p',
+  Forall (fun x => 0 < x) (s_res p) -> Forall (fun f => 0 < f) (s_sf p) -> length (s_sf p) = length (s_res p) -> 0 <= fee < P18 ->
+  (s_swap_out_given_in p i j amt fee = Ok (r, p') \/ s_swap_in_given_out p i j amt fee = Ok (r, p')) ->
+  (ss_k (s_res p) (s_sf p) <= ss_k (s_res p') (s_sf p'))%Q.
+(* ... is refuted at the ulp level: when the curve's correction to a 1:1 trade is below the 36-decimal resolution the pool
+   charges exactly what it pays (witness replayed on the Go code: known finding C04-F3; the loss is bounded by C04_stable_swap_k_partial) *)
+Theorem C04_stable_full_refuted : ~ C04_stable_full.
+Proof.
+  intros H. destruct witness_stable_invariant_falls as (p' & Hs & _ & Hlt).
+  specialize (H _ 0%nat 1%nat 1 0 1 p').
+  assert (Hle : (ss_k (s_res (mkS [f3_reserve; f3_reserve] [1024; 1024] 100000000000000000000)) (s_sf (mkS [f3_reserve; f3_reserve] [1024; 1024] 100000000000000000000))
+                 <= ss_k (s_res p') (s_sf p'))%Q).
+  { apply H; cbn [s_res s_sf]; try (repeat constructor; reflexivity); [split; [discriminate|reflexivity]|right; exact Hs]. }
+  apply Qle_not_lt in Hle. apply Hle. exact Hlt.
+Qed.
+Print Assumptions C04_stable_full_refuted.
 
 (* non-vacuity: an unbalanced 3-asset pool, a join that is not in ratio (two coins leave a remainder),
    an exit with a 1% exit fee *)
